@@ -281,11 +281,37 @@ def check_history(provider, case, findings, known_seen):
     return msg
 
 
+def twin_zones(rnd):
+    """zones built one after the other in ONE process whose observances have the same DTSTART and the same rule text (UNTIL in UTC) but other
+    offsets: what one definition yields must not depend on the definitions seen before (no state may leak between them)"""
+    out = []
+    for k in range(4):
+        y0 = rnd.randint(1970, 1990)
+        yl = rnd.randint(2005, 2020)
+        hour = rnd.choice([1, 2, 3])
+        d_on, s_on = nth_weekday(y0, 3, 6, -1), nth_weekday(y0, 10, 6, -1)
+        # ONE UTC UNTIL per rule for all twins, between the candidate last onsets of the eastern and the western twin
+        last_d = datetime(yl, 3, nth_weekday(yl, 3, 6, -1), hour)
+        last_s = datetime(yl, 10, nth_weekday(yl, 10, 6, -1), hour + 1)
+        until_d, until_s = last_d - timedelta(hours=1), last_s - timedelta(hours=1)
+        twins = []
+        for j, base_min in enumerate(rnd.sample([-600, -300, 60, 120, 540], 3)):
+            base = timedelta(minutes=base_min)
+            dst = base + timedelta(hours=1)
+            day = Obs("DAYLIGHT", datetime(y0, 3, d_on, hour), base, dst, "DDD", ("rrule", 3, 6, -1, until_d, None))
+            std = Obs("STANDARD", datetime(y0, 10, s_on, hour + 1), dst, base, "SSS", ("rrule", 10, 6, -1, until_s, None))
+            first = Obs("STANDARD", datetime(y0 - 1, 1, 1, 0), base, base, "SSS", None)
+            twins.append((f"Twin/Z{k}-{j}", [first, day, std]))
+        out += twins
+    return out
+
+
 def run(b, tier, seed, findings, known_seen):
     import icalendar
     rnd = random.Random(seed)
     n = 120 if tier == "quick" else 1200
     zones = [(f"Gen/Zone{i}", gen_observances(rnd)) for i in range(n)]
+    zones += twin_zones(random.Random(seed + 7))
     fails = []
     cases = 0
     for prov in ("zoneinfo", "pytz"):
